@@ -257,6 +257,8 @@ class Gen:
                  "min": "bin", "max": "bin"}.get(op, op)
         if kind == "M" and kname in ("un", "bin", "smul"):
             kname = "m" + kname
+        if op == "msmul":
+            kname = "msmul"
         kcls = [k.cls for k in kids]
         if op == "addc":
             kcls.append(self.K("cvec"))
@@ -272,6 +274,105 @@ class Gen:
         ops = sum((k.ops for k in kids), ()) + (op,)
         return E(kind, shape, txt, cpp, orc, bound, dexp, reads, cls, False, None, ew,
                  1 + max([k.depth for k in kids] + [0]), ops)
+
+    # ------------------------------------------------------------------ operator nodes
+    @staticmethod
+    def _sumb(a, b):
+        return (a.bound << max(0, b.dexp - a.dexp)) + (b.bound << max(0, a.dexp - b.dexp)), max(a.dexp, b.dexp)
+
+    @staticmethod
+    def _maxb(a, b):
+        return max(a.bound << max(0, b.dexp - a.dexp), b.bound << max(0, a.dexp - b.dexp)), max(a.dexp, b.dexp)
+
+    def mk_cvec(self, n, c):
+        return E("V", n, f"(cvec {n} {tnum(c)})", f"blas_cvec({n},{cnum(c)})", f"o_cvec({n},{cnum(c)})",
+                 self.cbound(c), self.cdexp(c), [], self.K("cvec"), ops=("cvec",))
+
+    def mk_unit(self, n, k, c):
+        return E("V", n, f"(unit {n} {k} {tnum(c)})", f"blas_unit({n},{k},{cnum(c)})", f"o_unit({n},{k},{cnum(c)})",
+                 self.cbound(c), self.cdexp(c), [], self.K("unit"), ops=("unit",))
+
+    def mk_cmat(self, n1, n2, c):
+        return E("M", (n1, n2), f"(cmat {n1} {n2} {tnum(c)})", f"blas_cmat({n1},{n2},{cnum(c)})",
+                 f"o_cmat({n1},{n2},{cnum(c)})", self.cbound(c), self.cdexp(c), [], self.K("cmat"), ops=("cmat",))
+
+    def mk_smul(self, c, a, left=True):
+        pre = "" if a.kind == "V" else "m"
+        cpp = f"({cnum(c)}*{a.cpp})" if left else f"({a.cpp}*{cnum(c)})"
+        return self.node(a.kind, a.shape, pre + "smul", f"({pre}smul {tnum(c)} {a.txt})", cpp,
+                         f"o_{pre}smul({cnum(c)},{a.orc})", a.bound * self.cbound(c), a.dexp + self.cdexp(c), [a])
+
+    def mk_add(self, a, b):
+        pre = "" if a.kind == "V" else "m"
+        bd, dx = self._sumb(a, b)
+        return self.node(a.kind, a.shape, pre + "add", f"({pre}add {a.txt} {b.txt})", f"({a.cpp}+{b.cpp})",
+                         f"o_{pre}add({a.orc},{b.orc})", bd, dx, [a, b])
+
+    def mk_sub(self, a, b):
+        pre = "" if a.kind == "V" else "m"
+        bd, dx = self._sumb(a, b)
+        return self.node(a.kind, a.shape, pre + "sub", f"({pre}sub {a.txt} {b.txt})", f"({a.cpp}-{b.cpp})",
+                         f"o_{pre}sub({a.orc},{b.orc})", bd, dx, [a, b])
+
+    def mk_addc(self, a, c):
+        if a.kind == "V":
+            cv, op, pre = f"(cvec {a.shape} {tnum(c)})", "addc", ""
+            oc = f"o_cvec({a.shape},{cnum(c)})"
+        else:
+            cv, op, pre = f"(cmat {a.shape[0]} {a.shape[1]} {tnum(c)})", "maddc", "m"
+            oc = f"o_cmat({a.shape[0]},{a.shape[1]},{cnum(c)})"
+        return self.node(a.kind, a.shape, op, f"({pre}add {a.txt} {cv})", f"({a.cpp}+{cnum(c)})", f"o_{pre}add({a.orc},{oc})",
+                         (a.bound << max(0, self.cdexp(c) - a.dexp)) + (self.cbound(c) << a.dexp), max(a.dexp, self.cdexp(c)), [a])
+
+    def mk_concat(self, a, b):
+        bd, dx = self._maxb(a, b)
+        return self.node("V", a.shape + b.shape, "concat", f"(concat {a.txt} {b.txt})", f"({a.cpp}|{b.cpp})",
+                         f"o_concat({a.orc},{b.orc})", bd, dx, [a, b], elementwise=False)
+
+    def mk_mv(self, m, v):
+        k = m.shape[1]
+        return self.node("V", m.shape[0], "mv", f"(mv {m.txt} {v.txt})", f"prod({m.cpp},{v.cpp})", f"o_mv({m.orc},{v.orc})",
+                         max(1, k) * m.bound * v.bound, m.dexp + v.dexp, [m, v], elementwise=False)
+
+    def mk_vm(self, v, m):
+        k = m.shape[0]
+        return self.node("V", m.shape[1], "vm", f"(vm {v.txt} {m.txt})", f"prod({v.cpp},{m.cpp})", f"o_vm({v.orc},{m.orc})",
+                         max(1, k) * m.bound * v.bound, m.dexp + v.dexp, [m, v], elementwise=False)
+
+    def mk_sumrows(self, m):
+        return self.node("V", m.shape[0], "sumrows", f"(sumrows {m.txt})", f"sum(as_rows({m.cpp}))", f"o_sumrows({m.orc})",
+                         max(1, m.shape[1]) * m.bound, m.dexp, [m], elementwise=False)
+
+    def mk_sumcols(self, m):
+        return self.node("V", m.shape[1], "sumcols", f"(sumcols {m.txt})", f"sum(as_columns({m.cpp}))", f"o_sumcols({m.orc})",
+                         max(1, m.shape[0]) * m.bound, m.dexp, [m], elementwise=False)
+
+    def mk_outer(self, u, v):
+        return self.node("M", (u.shape, v.shape), "outer", f"(outer {u.txt} {v.txt})", f"outer_prod({u.cpp},{v.cpp})",
+                         f"o_outer({u.orc},{v.orc})", u.bound * v.bound, u.dexp + v.dexp, [u, v])
+
+    def mk_mm(self, a, b):
+        k = a.shape[1]
+        return self.node("M", (a.shape[0], b.shape[1]), "mm", f"(mm {a.txt} {b.txt})", f"prod({a.cpp},{b.cpp})",
+                         f"o_mm({a.orc},{b.orc})", max(1, k) * a.bound * b.bound, a.dexp + b.dexp, [a, b], elementwise=False)
+
+    def mk_repeat(self, v, n1):
+        return self.node("M", (n1, v.shape), "repeat", f"(repeat {v.txt} {n1})", f"repeat({v.cpp},{n1})",
+                         f"o_repeat({v.orc},{n1})", v.bound, v.dexp, [v])
+
+    def mk_diagm(self, v):
+        return self.node("M", (v.shape, v.shape), "diagm", f"(diagm {v.txt})", f"blas_diagm({v.cpp})", f"o_diagm({v.orc})",
+                         v.bound, v.dexp, [v])
+
+    def mk_concatr(self, a, b):
+        bd, dx = self._maxb(a, b)
+        return self.node("M", (a.shape[0], a.shape[1] + b.shape[1]), "concatr", f"(concatr {a.txt} {b.txt})", f"({a.cpp}|{b.cpp})",
+                         f"o_concatr({a.orc},{b.orc})", bd, dx, [a, b], elementwise=False)
+
+    def mk_concatb(self, a, b):
+        bd, dx = self._maxb(a, b)
+        return self.node("M", (a.shape[0] + b.shape[0], a.shape[1]), "concatb", f"(concatb {a.txt} {b.txt})", f"({a.cpp}&{b.cpp})",
+                         f"o_concatb({a.orc},{b.orc})", bd, dx, [a, b], elementwise=False)
 
     # ------------------------------------------------------------------ expressions
     def gen_v(self, n, depth, divisor=False):
@@ -309,12 +410,8 @@ class Gen:
                 if p is not None:
                     return p
             if x < 9 or n == 0:
-                c = self.const()
-                return E("V", n, f"(cvec {n} {tnum(c)})", f"blas_cvec({n},{cnum(c)})", f"o_cvec({n},{cnum(c)})",
-                         self.cbound(c), self.cdexp(c), [], self.K("cvec"), ops=("cvec",))
-            k = r.below(n); c = r.choice([1, 2, -3])
-            return E("V", n, f"(unit {n} {k} {c})", f"blas_unit({n},{k},{cnum(c)})", f"o_unit({n},{k},{cnum(c)})",
-                     abs(c), 0, [], self.K("unit"), ops=("unit",))
+                return self.mk_cvec(n, self.const())
+            return self.mk_unit(n, r.below(n), r.choice([1, 2, -3]))
         d = depth - 1
         if self.api is not None and r.chance(1, 4):
             # proxy of an expression: goes through the rewrite-rule table
@@ -330,17 +427,11 @@ class Gen:
             return self.mk_diag(self.gen_m(n, n, d))
         x = r.below(100)
         if x < 10:
-            c = self.const(); a = self.gen_v(n, d)
-            return self.node("V", n, "smul", f"(smul {tnum(c)} {a.txt})", f"({cnum(c)}*{a.cpp})" if r.chance(1, 2) else f"({a.cpp}*{cnum(c)})",
-                             f"o_smul({cnum(c)},{a.orc})", a.bound * self.cbound(c), a.dexp + self.cdexp(c), [a])
+            return self.mk_smul(self.const(), self.gen_v(n, d), r.chance(1, 2))
         if x < 20:
-            a = self.gen_v(n, d); b = self.gen_v(n, d)
-            return self.node("V", n, "add", f"(add {a.txt} {b.txt})", f"({a.cpp}+{b.cpp})", f"o_add({a.orc},{b.orc})",
-                             (a.bound << max(0, b.dexp - a.dexp)) + (b.bound << max(0, a.dexp - b.dexp)), max(a.dexp, b.dexp), [a, b])
+            return self.mk_add(self.gen_v(n, d), self.gen_v(n, d))
         if x < 28:
-            a = self.gen_v(n, d); b = self.gen_v(n, d)
-            return self.node("V", n, "sub", f"(sub {a.txt} {b.txt})", f"({a.cpp}-{b.cpp})", f"o_sub({a.orc},{b.orc})",
-                             (a.bound << max(0, b.dexp - a.dexp)) + (b.bound << max(0, a.dexp - b.dexp)), max(a.dexp, b.dexp), [a, b])
+            return self.mk_sub(self.gen_v(n, d), self.gen_v(n, d))
         if x < 38:
             return self.un("V", r.choice(["abs", "sqr", "neg"]), self.gen_v(n, d))
         if x < 48:
@@ -352,33 +443,21 @@ class Gen:
                 return None
             return self.bin("V", "div", a, b)
         if x < 58:
-            c = self.const(); a = self.gen_v(n, d)
-            return self.node("V", n, "addc", f"(add {a.txt} (cvec {n} {tnum(c)}))", f"({a.cpp}+{cnum(c)})",
-                             f"o_add({a.orc},o_cvec({n},{cnum(c)}))",
-                             (a.bound << max(0, self.cdexp(c) - a.dexp)) + (self.cbound(c) << a.dexp), max(a.dexp, self.cdexp(c)), [a])
+            return self.mk_addc(self.gen_v(n, d), self.const())
         if x < 66:
             n1 = r.range(0, n)
-            a = self.gen_v(n1, d); b = self.gen_v(n - n1, d)
-            return self.node("V", n, "concat", f"(concat {a.txt} {b.txt})", f"({a.cpp}|{b.cpp})", f"o_concat({a.orc},{b.orc})",
-                             max(a.bound << max(0, b.dexp - a.dexp), b.bound << max(0, a.dexp - b.dexp)), max(a.dexp, b.dexp), [a, b], elementwise=False)
+            return self.mk_concat(self.gen_v(n1, d), self.gen_v(n - n1, d))
         if x < 80:
             k = self.dim()
-            m = self.gen_m(n, k, d); v = self.gen_v(k, d)
-            return self.node("V", n, "mv", f"(mv {m.txt} {v.txt})", f"prod({m.cpp},{v.cpp})", f"o_mv({m.orc},{v.orc})",
-                             max(1, k) * m.bound * v.bound, m.dexp + v.dexp, [m, v], elementwise=False)
+            return self.mk_mv(self.gen_m(n, k, d), self.gen_v(k, d))
         if x < 90:
             k = self.dim()
-            m = self.gen_m(k, n, d); v = self.gen_v(k, d)
-            return self.node("V", n, "vm", f"(vm {v.txt} {m.txt})", f"prod({v.cpp},{m.cpp})", f"o_vm({v.orc},{m.orc})",
-                             max(1, k) * m.bound * v.bound, m.dexp + v.dexp, [m, v], elementwise=False)
+            m = self.gen_m(k, n, d)
+            return self.mk_vm(self.gen_v(k, d), m)
         k = self.dim()
         if x < 95:
-            m = self.gen_m(n, k, d)
-            return self.node("V", n, "sumrows", f"(sumrows {m.txt})", f"sum(as_rows({m.cpp}))", f"o_sumrows({m.orc})",
-                             max(1, k) * m.bound, m.dexp, [m], elementwise=False)
-        m = self.gen_m(k, n, d)
-        return self.node("V", n, "sumcols", f"(sumcols {m.txt})", f"sum(as_columns({m.cpp}))", f"o_sumcols({m.orc})",
-                         max(1, k) * m.bound, m.dexp, [m], elementwise=False)
+            return self.mk_sumrows(self.gen_m(n, k, d))
+        return self.mk_sumcols(self.gen_m(k, n, d))
 
     def un(self, kind, f, a):
         pre = "" if kind == "V" else "m"
@@ -427,9 +506,7 @@ class Gen:
                 p = self.place_m(n1, n2)
                 if p is not None:
                     return p
-            c = self.const()
-            return E("M", (n1, n2), f"(cmat {n1} {n2} {tnum(c)})", f"blas_cmat({n1},{n2},{cnum(c)})",
-                     f"o_cmat({n1},{n2},{cnum(c)})", self.cbound(c), self.cdexp(c), [], self.K("cmat"), ops=("cmat",))
+            return self.mk_cmat(n1, n2, self.const())
         d = depth - 1
         if self.api is not None and r.chance(1, 4):
             y = r.below(4)
@@ -444,19 +521,12 @@ class Gen:
             a2 = r.range(0, 3); s2 = r.range(0, a2)
             return self.mk_cols(self.gen_m(n1, n2 + a2, d), s2, s2 + n2)
         x = r.below(100)
-        sh = (n1, n2)
         if x < 10:
-            c = self.const(); a = self.gen_m(n1, n2, d)
-            return self.node("M", sh, "msmul", f"(msmul {tnum(c)} {a.txt})", f"({cnum(c)}*{a.cpp})" if r.chance(1, 2) else f"({a.cpp}*{cnum(c)})",
-                             f"o_msmul({cnum(c)},{a.orc})", a.bound * self.cbound(c), a.dexp + self.cdexp(c), [a])
+            return self.mk_smul(self.const(), self.gen_m(n1, n2, d), r.chance(1, 2))
         if x < 20:
-            a = self.gen_m(n1, n2, d); b = self.gen_m(n1, n2, d)
-            return self.node("M", sh, "madd", f"(madd {a.txt} {b.txt})", f"({a.cpp}+{b.cpp})", f"o_madd({a.orc},{b.orc})",
-                             (a.bound << max(0, b.dexp - a.dexp)) + (b.bound << max(0, a.dexp - b.dexp)), max(a.dexp, b.dexp), [a, b])
+            return self.mk_add(self.gen_m(n1, n2, d), self.gen_m(n1, n2, d))
         if x < 27:
-            a = self.gen_m(n1, n2, d); b = self.gen_m(n1, n2, d)
-            return self.node("M", sh, "msub", f"(msub {a.txt} {b.txt})", f"({a.cpp}-{b.cpp})", f"o_msub({a.orc},{b.orc})",
-                             (a.bound << max(0, b.dexp - a.dexp)) + (b.bound << max(0, a.dexp - b.dexp)), max(a.dexp, b.dexp), [a, b])
+            return self.mk_sub(self.gen_m(n1, n2, d), self.gen_m(n1, n2, d))
         if x < 35:
             return self.un("M", r.choice(["abs", "sqr", "neg"]), self.gen_m(n1, n2, d))
         if x < 44:
@@ -467,36 +537,21 @@ class Gen:
                 return None
             return self.bin("M", "div", a, b)
         if x < 55:
-            u = self.gen_v(n1, d); v = self.gen_v(n2, d)
-            return self.node("M", sh, "outer", f"(outer {u.txt} {v.txt})", f"outer_prod({u.cpp},{v.cpp})",
-                             f"o_outer({u.orc},{v.orc})", u.bound * v.bound, u.dexp + v.dexp, [u, v])
+            return self.mk_outer(self.gen_v(n1, d), self.gen_v(n2, d))
         if x < 70:
             k = self.dim()
-            a = self.gen_m(n1, k, d); b = self.gen_m(k, n2, d)
-            return self.node("M", sh, "mm", f"(mm {a.txt} {b.txt})", f"prod({a.cpp},{b.cpp})", f"o_mm({a.orc},{b.orc})",
-                             max(1, k) * a.bound * b.bound, a.dexp + b.dexp, [a, b], elementwise=False)
+            return self.mk_mm(self.gen_m(n1, k, d), self.gen_m(k, n2, d))
         if x < 76:
-            v = self.gen_v(n2, d)
-            return self.node("M", sh, "repeat", f"(repeat {v.txt} {n1})", f"repeat({v.cpp},{n1})", f"o_repeat({v.orc},{n1})",
-                             v.bound, v.dexp, [v])
+            return self.mk_repeat(self.gen_v(n2, d), n1)
         if x < 80 and n1 == n2:
-            v = self.gen_v(n1, d)
-            return self.node("M", sh, "diagm", f"(diagm {v.txt})", f"blas_diagm({v.cpp})", f"o_diagm({v.orc})",
-                             v.bound, v.dexp, [v])
+            return self.mk_diagm(self.gen_v(n1, d))
         if x < 86:
             k = r.range(0, n2)
-            a = self.gen_m(n1, k, d); b = self.gen_m(n1, n2 - k, d)
-            return self.node("M", sh, "concatr", f"(concatr {a.txt} {b.txt})", f"({a.cpp}|{b.cpp})", f"o_concatr({a.orc},{b.orc})",
-                             max(a.bound << max(0, b.dexp - a.dexp), b.bound << max(0, a.dexp - b.dexp)), max(a.dexp, b.dexp), [a, b], elementwise=False)
+            return self.mk_concatr(self.gen_m(n1, k, d), self.gen_m(n1, n2 - k, d))
         if x < 92:
             k = r.range(0, n1)
-            a = self.gen_m(k, n2, d); b = self.gen_m(n1 - k, n2, d)
-            return self.node("M", sh, "concatb", f"(concatb {a.txt} {b.txt})", f"({a.cpp}&{b.cpp})", f"o_concatb({a.orc},{b.orc})",
-                             max(a.bound << max(0, b.dexp - a.dexp), b.bound << max(0, a.dexp - b.dexp)), max(a.dexp, b.dexp), [a, b], elementwise=False)
-        c = self.const(); a = self.gen_m(n1, n2, d)
-        return self.node("M", sh, "maddc", f"(madd {a.txt} (cmat {n1} {n2} {tnum(c)}))", f"({a.cpp}+{cnum(c)})",
-                         f"o_madd({a.orc},o_cmat({n1},{n2},{cnum(c)}))",
-                         (a.bound << max(0, self.cdexp(c) - a.dexp)) + (self.cbound(c) << a.dexp), max(a.dexp, self.cdexp(c)), [a])
+            return self.mk_concatb(self.gen_m(k, n2, d), self.gen_m(n1 - k, n2, d))
+        return self.mk_addc(self.gen_m(n1, n2, d), self.const())
 
     # ------------------------------------------------------------------ statements
     FORMS = ["set", "plus", "minus", "times", "divide"]
@@ -561,6 +616,12 @@ class Gen:
             return None
         base.bound, base.dexp = nb, nd
         fname = ("na_" if noalias else "") + form
+        return self.render_statement(k, fname, t, e)
+
+    def render_statement(self, k, fname, t, e):
+        noalias = fname.startswith("na_")
+        form = fname[3:] if noalias else fname
+        base = [v for v in self.vars if v.name in t.reads][0]
         text = f"{fname} {t.txt} {e.txt}"
         tcpp = f"noalias({t.cpp})" if noalias else t.cpp
         src = (f"// {text}\n"
@@ -584,21 +645,9 @@ class Gen:
                 n = max(self.dims) or 1
                 if n not in self.dims:
                     kind = "sum"; n = 0
-            a = self.gen_v(n, depth)
+            args = [self.gen_v(n, depth)]
             if kind == "inner_prod":
-                b = self.gen_v(n, depth)
-                text = f"inner_prod {a.txt} {b.txt}"
-                cpp = f"inner_prod({a.cpp},{b.cpp})"; orc = f"o_inner({a.orc},{b.orc})"
-                bits = (max(1, n) * a.bound * b.bound).bit_length() + a.dexp + b.dexp
-                ops = a.ops + b.ops
-            else:
-                text = f"{kind} {a.txt}"
-                cpp = f"{kind}({a.cpp})"
-                orc = {"sum": f"o_sum({a.orc})", "max": f"o_max({a.orc})", "min": f"o_min({a.orc})",
-                       "norm_1": f"o_sum(o_un(f_abs,{a.orc}))", "norm_sqr": f"o_sum(o_un(f_sqr,{a.orc}))",
-                       "norm_inf": f"o_max(o_un(f_abs,{a.orc}))"}[kind]
-                bits = (max(1, n) * a.bound * (a.bound if kind == "norm_sqr" else 1)).bit_length() + 2 * a.dexp
-                ops = a.ops
+                args.append(self.gen_v(n, depth))
         else:
             kind = r.choice(self.REDS_M)
             n1, n2 = self.dim(), self.dim()
@@ -606,18 +655,39 @@ class Gen:
                 n2 = n1
             if kind in ("mmax", "mmin") and n1 * n2 == 0:
                 kind = "msum"
-            a = self.gen_m(n1, n2, depth)
+            args = [self.gen_m(n1, n2, depth)]
             if kind == "trace":
                 try:
-                    self.K("diag", a.cls)
+                    self.K("diag", args[0].cls)
                 except Unsupported:
                     kind = "msum"
+        return self.render_reduction(k, kind, args)
+
+    def render_reduction(self, k, kind, args):
+        a = args[0]
+        if kind == "inner_prod":
+            b = args[1]
+            n = a.shape
+            text = f"inner_prod {a.txt} {b.txt}"
+            cpp = f"inner_prod({a.cpp},{b.cpp})"; orc = f"o_inner({a.orc},{b.orc})"
+            bits = (max(1, n) * a.bound * b.bound).bit_length() + a.dexp + b.dexp
+            ops = a.ops + b.ops
+        elif a.kind == "V":
+            n = a.shape
             text = f"{kind} {a.txt}"
-            cpp = {"msum": f"sum({a.cpp})", "mmax": f"max({a.cpp})", "mmin": f"min({a.cpp})", "trace": f"trace({a.cpp})",
-                   "mnorm_sqr": f"norm_sqr({a.cpp})"}[kind]
+            cpp = f"{kind}({a.cpp})"
+            orc = {"sum": f"o_sum({a.orc})", "max": f"o_max({a.orc})", "min": f"o_min({a.orc})",
+                   "norm_1": f"o_sum(o_un(f_abs,{a.orc}))", "norm_sqr": f"o_sum(o_un(f_sqr,{a.orc}))",
+                   "norm_inf": f"o_max(o_un(f_abs,{a.orc}))"}[kind]
+            bits = (max(1, n) * a.bound * (a.bound if kind == "norm_sqr" else 1)).bit_length() + 2 * a.dexp
+            ops = a.ops
+        else:
+            n1, n2 = a.shape
+            text = f"{kind} {a.txt}"
+            cpp = {"msum": f"sum({a.cpp})", "mmax": f"max({a.cpp})", "mmin": f"min({a.cpp})", "trace": f"trace({a.cpp})"}[kind]
             orc = {"msum": f"o_sum({a.orc}.x)", "mmax": f"o_max({a.orc}.x)", "mmin": f"o_min({a.orc}.x)",
-                   "trace": f"o_trace({a.orc})", "mnorm_sqr": f"o_sum(o_mun(f_sqr,{a.orc}).x)"}[kind]
-            bits = (max(1, n1 * n2) * a.bound * (a.bound if kind == "mnorm_sqr" else 1)).bit_length() + 2 * a.dexp
+                   "trace": f"o_trace({a.orc})"}[kind]
+            bits = (max(1, n1 * n2) * a.bound).bit_length() + 2 * a.dexp
             ops = a.ops
         if bits > MAXBITS:
             return None
@@ -625,8 +695,123 @@ class Gen:
                f"static double red_{k}(c01::Store& S){{ using namespace remora; return {cpp}; }}\n"
                f"static double rexp_{k}(c01::Store const& S){{ using namespace c01; return {orc}; }}\n"
                f"static c01::Reg reg_{k}({k}, c01::Entry{{\"{text}\", 0, 0, &red_{k}, &rexp_{k}}});\n")
-        return f"red {k} {text}", src, dict(form="red:" + kind, ops=ops, depth=0, aliased=False, target_kind="R",
+        return f"red {k} {text}", src, dict(form="red:" + kind, ops=ops, depth=a.depth, aliased=False, target_kind="R",
                                              target_ops=(), shape=None)
+
+
+# ------------------------------------------------------------------------------------------
+# corpus: hand-written / minimised cases given as op text; rendered with the same constructors
+# ------------------------------------------------------------------------------------------
+def _tokens(t):
+    return t.replace("(", " ( ").replace(")", " ) ").split()
+
+
+def _parse(toks, i=0):
+    if toks[i] == "(":
+        out, i = [], i + 1
+        while toks[i] != ")":
+            e, i = _parse(toks, i)
+            out.append(e)
+        return out, i + 1
+    return toks[i], i + 1
+
+
+def _num(t):
+    if "/" in t:
+        a, b = t.split("/")
+        return (int(a), int(b))
+    return int(t)
+
+
+class CorpusGen(Gen):
+    """builds E nodes from op text (no random choices)"""
+
+    def __init__(self, calc=None):
+        Gen.__init__(self, None, None, 0, calc)
+
+    def load(self, lines, k0):
+        self.vars, init, stmts = [], [], []
+        nv = na = nb = 0
+        k = k0
+        for l in lines:
+            t = l.split()
+            if t[0] == "new":
+                init.append(l)
+            elif t[0] == "vec":
+                v = Var("v", nv, int(t[1])); nv += 1
+                v.bound = max([abs(int(x)) for x in t[2:]] + [1])
+                self.vars.append(v); init.append(l)
+            elif t[0] == "mat":
+                idx = na if t[1] == "A" else nb
+                v = Var(t[1], idx, (int(t[2]), int(t[3])))
+                if t[1] == "A":
+                    na += 1
+                else:
+                    nb += 1
+                v.bound = max([abs(int(x)) for x in t[4:]] + [1])
+                self.vars.append(v); init.append(l)
+            elif t[0] == "stmt":
+                form = t[2]
+                ses, pos, toks = [], 0, _tokens(" ".join(t[3:]))
+                while pos < len(toks):
+                    e, pos = _parse(toks, pos)
+                    ses.append(e)
+                tgt, e = self.build(ses[0]), self.build(ses[1])
+                stmts.append((k,) + self.render_statement(k, form, tgt, e))
+                k += 1
+            elif t[0] == "red":
+                kind = t[2]
+                ses, pos, toks = [], 0, _tokens(" ".join(t[3:]))
+                while pos < len(toks):
+                    e, pos = _parse(toks, pos)
+                    ses.append(e)
+                stmts.append((k,) + self.render_reduction(k, kind, [self.build(x) for x in ses]))
+                k += 1
+            else:
+                raise ValueError("corpus line not understood: " + l)
+        return (init, stmts), k
+
+    def var(self, kind, idx):
+        for v in self.vars:
+            if v.kind == kind and v.idx == idx:
+                return v.expr()
+        raise ValueError(f"unknown variable {kind}{idx}")
+
+    def build(self, se):
+        h, a = se[0], se[1:]
+        B = self.build
+        if h in ("v", "A", "B"):
+            return self.var(h, int(a[0]))
+        if h == "range": return self.mk_range(B(a[0]), int(a[1]), int(a[2]))
+        if h == "row": return self.mk_row(B(a[0]), int(a[1]))
+        if h == "col": return self.mk_col(B(a[0]), int(a[1]))
+        if h == "diag": return self.mk_diag(B(a[0]))
+        if h == "trans": return self.mk_trans(B(a[0]))
+        if h == "mrange": return self.mk_mrange(B(a[0]), *map(int, a[1:5]))
+        if h == "rows": return self.mk_rows(B(a[0]), int(a[1]), int(a[2]))
+        if h == "cols": return self.mk_cols(B(a[0]), int(a[1]), int(a[2]))
+        if h in ("smul", "msmul"): return self.mk_smul(_num(a[0]), B(a[1]))
+        if h in ("add", "madd"): return self.mk_add(B(a[0]), B(a[1]))
+        if h in ("sub", "msub"): return self.mk_sub(B(a[0]), B(a[1]))
+        if h == "un": return self.un("V", a[0], B(a[1]))
+        if h == "mun": return self.un("M", a[0], B(a[1]))
+        if h == "bin": return self.bin("V", a[0], B(a[1]), B(a[2]))
+        if h == "mbin": return self.bin("M", a[0], B(a[1]), B(a[2]))
+        if h == "cvec": return self.mk_cvec(int(a[0]), _num(a[1]))
+        if h == "unit": return self.mk_unit(int(a[0]), int(a[1]), _num(a[2]))
+        if h == "cmat": return self.mk_cmat(int(a[0]), int(a[1]), _num(a[2]))
+        if h == "concat": return self.mk_concat(B(a[0]), B(a[1]))
+        if h == "mv": return self.mk_mv(B(a[0]), B(a[1]))
+        if h == "vm": return self.mk_vm(B(a[0]), B(a[1]))
+        if h == "sumrows": return self.mk_sumrows(B(a[0]))
+        if h == "sumcols": return self.mk_sumcols(B(a[0]))
+        if h == "outer": return self.mk_outer(B(a[0]), B(a[1]))
+        if h == "mm": return self.mk_mm(B(a[0]), B(a[1]))
+        if h == "repeat": return self.mk_repeat(B(a[0]), int(a[1]))
+        if h == "diagm": return self.mk_diagm(B(a[0]))
+        if h == "concatr": return self.mk_concatr(B(a[0]), B(a[1]))
+        if h == "concatb": return self.mk_concatb(B(a[0]), B(a[1]))
+        raise ValueError("corpus expression head not understood: " + h)
 
 
 PRELUDE = """// generated by checks/c01gen.py -- do not edit
